@@ -284,6 +284,7 @@ type TLG struct {
 	c *Ctx
 
 	ret        map[*ssa.Function][]AV
+	retOK      map[*ssa.Function][]AV // results on the exits whose error result may be nil
 	paramT     map[*ssa.Function][]AV
 	fieldT     map[*types.Var]string // integer field -> source description
 	fieldElemT map[*types.Var]string
@@ -304,7 +305,7 @@ func (c *Ctx) TLG() *TLG {
 	if c.tlg != nil {
 		return c.tlg
 	}
-	t := &TLG{c: c, ret: map[*ssa.Function][]AV{}, paramT: map[*ssa.Function][]AV{}, fieldT: map[*types.Var]string{},
+	t := &TLG{c: c, ret: map[*ssa.Function][]AV{}, retOK: map[*ssa.Function][]AV{}, paramT: map[*ssa.Function][]AV{}, fieldT: map[*types.Var]string{},
 		fieldElemT: map[*types.Var]string{}, Sources: map[string]int{}, pure: map[*ssa.Function]bool{}}
 	for _, f := range c.Funcs() {
 		if inPkgs(f, "data/...", "level/block", "level/biome", "level/item", "level/entity") {
@@ -403,6 +404,8 @@ type fnAn struct {
 	ords  map[string]int
 	sinks map[ssa.Instruction]map[string]*Sink // dedupe across re-visits: keyed by instr+kind
 	retAV []AV
+	retOK []AV
+	feas  map[*ssa.BasicBlock]map[int]bool // predecessor edges over which a state has arrived
 	vals  map[string]ssa.Value // name -> value for V: entries
 	// per block transient
 	storeCtr int
@@ -490,6 +493,13 @@ func (t *TLG) analyze(fn *ssa.Function) {
 			if st == nil {
 				continue
 			}
+			if a.feas == nil {
+				a.feas = map[*ssa.BasicBlock]map[int]bool{}
+			}
+			if a.feas[succ] == nil {
+				a.feas[succ] = map[int]bool{}
+			}
+			a.feas[succ][predIndex(succ, b)] = true
 			// phi assignment on the edge
 			for _, in := range succ.Instrs {
 				phi, ok := in.(*ssa.Phi)
@@ -572,26 +582,31 @@ func (t *TLG) analyze(fn *ssa.Function) {
 			a.blockCollect(b, st.clone())
 		}
 	}
-	// return summary
-	if a.retAV != nil {
-		old := t.ret[fn]
-		if len(old) != len(a.retAV) {
-			t.ret[fn] = a.retAV
+	// return summaries: over all exits, and over the exits that can return a nil error
+	mergeSum := func(m map[*ssa.Function][]AV, cur []AV) {
+		if cur == nil {
+			return
+		}
+		old := m[fn]
+		if len(old) != len(cur) {
+			m[fn] = cur
 			t.changed = true
-		} else {
-			for i := range old {
-				j := joinAV(old[i], a.retAV[i])
-				if t.round > 6 {
-					j.T = widenIv(old[i].T, j.T)
-					j.P = widenIv(old[i].P, j.P)
-				}
-				if !j.eq(old[i]) {
-					old[i] = j
-					t.changed = true
-				}
+			return
+		}
+		for i := range old {
+			j := joinAV(old[i], cur[i])
+			if t.round > 6 {
+				j.T = widenIv(old[i].T, j.T)
+				j.P = widenIv(old[i].P, j.P)
+			}
+			if !j.eq(old[i]) {
+				old[i] = j
+				t.changed = true
 			}
 		}
 	}
+	mergeSum(t.ret, a.retAV)
+	mergeSum(t.retOK, a.retOK)
 }
 
 func predIndex(b, pred *ssa.BasicBlock) int {
@@ -1024,6 +1039,10 @@ func countResultCall(cc *ssa.CallCommon) bool {
 }
 
 func (a *fnAn) callResult(call *ssa.Call, idx int, typ types.Type) AV {
+	return a.callResultOf(call, idx, typ, a.t.ret)
+}
+
+func (a *fnAn) callResultOf(call *ssa.Call, idx int, typ types.Type, sums map[*ssa.Function][]AV) AV {
 	tr := typeRange(typ, a.sizes)
 	if tr == nil {
 		return AV{}
@@ -1063,7 +1082,7 @@ func (a *fnAn) callResult(call *ssa.Call, idx int, typ types.Type) AV {
 	}
 	for _, g := range callees {
 		g0 := core.Origin(g)
-		sum, ok := a.t.ret[g0]
+		sum, ok := sums[g0]
 		if !a.t.c.P.InModule(g0) || !ok || idx >= len(sum) {
 			if a.t.c.P.InModule(g0) && len(g0.Blocks) > 0 && !ok {
 				// not analysed yet in this round: optimistic bottom, a later round fixes it
@@ -1228,6 +1247,38 @@ func (a *fnAn) refine(st tstate, cond ssa.Value, truth bool, b *ssa.BasicBlock) 
 			}
 		}
 		return st
+	case *ssa.Phi:
+		// a && / || used as a value: the condition holds through one of the edges
+		// that have been feasible so far
+		if c.Block() != b {
+			return st
+		}
+		var res tstate
+		for i, e := range c.Edges {
+			if !a.feas[b][i] {
+				continue
+			}
+			var cand tstate
+			if k, ok := e.(*ssa.Const); ok {
+				if k.Value == nil || k.Value.Kind() != constant.Bool || constant.BoolVal(k.Value) != truth {
+					continue
+				}
+				cand = st.clone()
+			} else if _, isPhi := e.(*ssa.Phi); isPhi {
+				cand = st.clone()
+			} else {
+				cand = a.refine(st.clone(), e, truth, b)
+				if cand == nil {
+					continue
+				}
+			}
+			if res == nil {
+				res = cand
+			} else {
+				res = a.joinState(res, cand)
+			}
+		}
+		return res
 	case *ssa.BinOp:
 		switch c.Op {
 		case token.LSS, token.LEQ, token.GTR, token.GEQ, token.EQL, token.NEQ:
@@ -1235,6 +1286,9 @@ func (a *fnAn) refine(st tstate, cond ssa.Value, truth bool, b *ssa.BasicBlock) 
 			return st
 		}
 		if !isIntegerType(c.X.Type(), a.sizes) {
+			if (c.Op == token.EQL || c.Op == token.NEQ) && isErrorType(c.X.Type()) {
+				a.refineErr(st, c, truth)
+			}
 			return st
 		}
 		op := c.Op
@@ -1252,6 +1306,71 @@ func (a *fnAn) refine(st tstate, cond ssa.Value, truth bool, b *ssa.BasicBlock) 
 		return st
 	}
 	return st
+}
+
+// refineErr: "err != nil" / "err == nil". On the non-nil edge the fact is
+// recorded (the exits below it are error exits); on the nil edge the other
+// results of the call that produced err are narrowed to the callee's summary
+// over its exits that can return a nil error.
+func (a *fnAn) refineErr(st tstate, c *ssa.BinOp, truth bool) {
+	e, other := c.X, c.Y
+	if k, ok := e.(*ssa.Const); ok && k.Value == nil {
+		e, other = other, e
+	}
+	if k, ok := other.(*ssa.Const); !ok || k.Value != nil {
+		return
+	}
+	nonNil := (c.Op == token.NEQ) == truth
+	if nonNil {
+		st["N:"+e.Name()] = AV{NZ: true}
+		return
+	}
+	ex, ok := e.(*ssa.Extract)
+	if !ok {
+		return
+	}
+	call, ok := ex.Tuple.(*ssa.Call)
+	if !ok || call.Referrers() == nil {
+		return
+	}
+	hasOK := false
+	for _, g := range a.t.c.P.Callees(call) {
+		if _, ok := a.t.retOK[core.Origin(g)]; ok {
+			hasOK = true
+		} else if a.t.c.P.InModule(core.Origin(g)) && len(core.Origin(g).Blocks) > 0 {
+			return // a callee without nil-error exits (or not summarised yet): no narrowing
+		}
+	}
+	if !hasOK {
+		return
+	}
+	for _, r := range *call.Referrers() {
+		sib, ok := r.(*ssa.Extract)
+		if !ok || sib == ex || !isIntegerType(sib.Type(), a.sizes) {
+			continue
+		}
+		okAV := a.callResultOf(call, sib.Index, sib.Type(), a.t.retOK)
+		cur := a.eval(sib, st)
+		all := cur.all()
+		nw := cur
+		nw.T, nw.P = nil, nil
+		if okAV.T != nil {
+			nw.T = meet(okAV.T, all)
+		}
+		if okAV.P != nil {
+			nw.P = meet(okAV.P, all)
+		}
+		if nw.T == nil && nw.P == nil {
+			continue
+		}
+		if nw.T == nil {
+			nw.Src = ""
+		} else if nw.Src == "" {
+			nw.Src = okAV.Src
+		}
+		st["V:"+sib.Name()] = nw
+		a.vals[sib.Name()] = sib
+	}
 }
 
 // constrain returns v restricted by "v op other"; ok=false if no value
@@ -1532,6 +1651,13 @@ func (a *fnAn) instr(in ssa.Instruction, st tstate, collect bool) {
 			if a.retAV == nil {
 				a.retAV = make([]AV, len(x.Results))
 			}
+			okExit := false
+			if last := x.Results[len(x.Results)-1]; len(x.Results) > 1 && isErrorType(last.Type()) {
+				okExit = !a.errNonNil(last, st)
+				if okExit && a.retOK == nil {
+					a.retOK = make([]AV, len(x.Results))
+				}
+			}
 			for i, r := range x.Results {
 				if !isIntegerType(r.Type(), a.sizes) {
 					continue
@@ -1539,9 +1665,34 @@ func (a *fnAn) instr(in ssa.Instruction, st tstate, collect bool) {
 				av := a.eval(r, st)
 				av.UB = nil
 				a.retAV[i] = joinAV(a.retAV[i], av)
+				if okExit {
+					a.retOK[i] = joinAV(a.retOK[i], av)
+				}
 			}
 		}
 	}
+}
+
+func isErrorType(t types.Type) bool {
+	return types.Identical(t, types.Universe.Lookup("error").Type())
+}
+
+// errNonNil: the error value is certainly non-nil here: freshly built, wrapped
+// into the interface from a concrete value, or tested against nil on the way.
+func (a *fnAn) errNonNil(v ssa.Value, st tstate) bool {
+	switch x := v.(type) {
+	case *ssa.Const:
+		return false
+	case *ssa.MakeInterface:
+		return true
+	case *ssa.Call:
+		switch calleeName(x.Common()) {
+		case "errors.New", "fmt.Errorf":
+			return true
+		}
+	}
+	_, ok := st["N:"+v.Name()]
+	return ok
 }
 
 func (t *TLG) markField(f *types.Var, src string) {
